@@ -1261,6 +1261,11 @@ func (c *Ctx) addressOf(st *State, e ast.Expr) Val {
 		}
 		return Ptr{p.ref, p.idx, p.ty}
 	}
+	if c.fc != nil && c.fc.Opts["only-stated"] != "" && len(p.path) > 0 {
+		// &v.f of a by-value local (e.g. a range variable): an opaque token for contract-called callees, as above
+		c.trusted["&x.f (address of a field inside an object) is an opaque token that only contract-called callees receive; their clauses address the owning object with unbox(p, Owner)"] = true
+		return Interior{Term{"0", SInt}, c.idx(0), "", p.ty}
+	}
 	unsupp("address of non-heap variable at %s (variable should have been boxed)", c.posStr(e.Pos()))
 	return nil
 }
@@ -1606,7 +1611,17 @@ func (c *Ctx) mapLoad(st *State, p Place) Val {
 	}
 	vs, ok := c.mapValSort(p.mapTy)
 	if !ok {
-		unsupp("map read with element type %s", p.mapTy.Elem())
+		// elements that are not scalars (structs, slices ...) are not stored in the model: a read yields an arbitrary value
+		// of the element type (only membership and cardinality of such maps are tracked)
+		et := p.mapTy.Elem()
+		if !validType(et) || c.opaqueType(et) {
+			return Opaque{et}
+		}
+		var facts []Term
+		v := c.fresh(et, "mapelem", &facts)
+		c.refsBounded(v, st.alloc, &facts)
+		st.assume(c, And(facts...))
+		return v
 	}
 	if vs == "" {
 		return c.zero(p.mapTy.Elem())
@@ -1632,7 +1647,7 @@ func (c *Ctx) mapStore(st *State, p Place, v Val) {
 	}
 	vs, ok := c.mapValSort(p.mapTy)
 	if !ok {
-		unsupp("map write with element type %s", p.mapTy.Elem())
+		vs = "" // non-scalar elements are not stored (reads return arbitrary values): only membership and cardinality change
 	}
 	c.oblige(st, "nil", "map-write", token.NoPos, Not(Eq(p.mapRef, Term{"0", SInt})), "assignment to entry in nil map")
 	ks := c.mapKeySort(p.mapTy)
